@@ -33,6 +33,12 @@ RULE = (
     "imputer object is first applied to a warm-up matrix (same number of criteria and fresh values / a twin with the same "
     "shape, labels, objectives and weights but re-drawn values and gaps / a different number of criteria and alternatives), "
     "then to the case's matrix; every clause is evaluated on both outputs, each against the matrix transformed at that step. "
+    "Very long matrices, a fixed share of every run (3 per imputer in the quick tier): 2049-5000 alternatives (2049 itself on a "
+    "quarter) x 2-4 criteria, each criterion one of: ordinary reals, amounts with cents, odd whole numbers between 2**24 and "
+    "2**52, doubles over 60 binades - values that single precision cannot hold - with ties, gaps at density 0.01-0.3 / whole "
+    "missing alternatives / none, string or whole-number labels, through SimpleImputer, KNNImputer (no callable metric) and "
+    "IterativeImputer(max_iter 0-2), a third on a re-used object (warm-up short or very long); every clause as for the short "
+    "matrices, observed cells compared bit for bit. "
     "Out-of-domain stream (SimpleImputer only, model correspondence only): a wholly missing criterion. "
     "Thorough tier adds the exhaustive enumeration for SimpleImputer: every 4x1 matrix over {missing,0,1,2} and every 3x2 "
     "matrix over {missing,1,2} with an observed value per criterion x 4 strategies; and every ordered pair (warm-up, matrix) "
@@ -206,6 +212,79 @@ def _impute_case(rng, cls=None, style=None, warm=None, int_labels=None):
     return case
 
 
+LONG_M = (2049, 5000)  # "very long": more alternatives than any block / chunk size a numeric back end is likely to use
+
+
+def _long_column(rng, m):
+    """one criterion of a very long matrix; the values are NOT representable in single precision (nor as small dyadics):
+    ordinary reals, amounts with cents, whole numbers above 2**24 (odd ones), a wide dynamic range; some ties"""
+    kind = rng.choice(["real", "real", "cents", "bigint", "bigint", "wide"])
+    if kind == "real":
+        lo, hi = rng.choice([(0.5, 250.0), (-40.0, 40.0), (1e3, 1e4), (1e-3, 1.0)])
+        col = [rng.uniform(lo, hi) for _ in range(m)]
+    elif kind == "cents":
+        col = [rng.randint(1, 10 ** 9) / 100 for _ in range(m)]
+    elif kind == "bigint":
+        top = rng.choice([2 ** 26, 2 ** 33, 2 ** 45, 2 ** 52])
+        col = [float(rng.randint(2 ** 24, top) | 1) for _ in range(m)]
+    else:
+        col = [math.ldexp(rng.uniform(0.5, 1.0), rng.randint(-20, 40)) for _ in range(m)]
+    p = rng.choice([0.0, 0.05, 0.3])
+    for i in range(1, m):
+        if rng.random() < p:
+            col[i] = col[rng.randrange(i)]
+    return kind, [x if x != 0 else 1.0 for x in col]
+
+
+def _long_dm(rng, m=None, n=None):
+    m = m or rng.choice([LONG_M[0], rng.randint(*LONG_M), rng.randint(*LONG_M), rng.randint(*LONG_M)])
+    n = n or rng.randint(2, 4)
+    kinds, cols = zip(*[_long_column(rng, m) for _ in range(n)])
+    style = rng.choice(["random", "random", "random", "rows", "none"])
+    if style == "none":
+        mask = [[False] * n for _ in range(m)]
+    else:
+        p = rng.choice([0.01, 0.04, 0.1, 0.3])
+        mask = [[rng.random() < p for _ in range(n)] for _ in range(m)]
+        if style == "rows":
+            for i in rng.sample(range(m), rng.randint(1, 20)):
+                mask[i] = [True] * n
+        for j in range(n):
+            if all(mask[i][j] for i in range(m)):
+                mask[rng.randrange(m)][j] = False
+    lab_kind = rng.choice(["str", "str", "int"])
+    # (whole-number labels start above the number of alternatives: a label that is also a position is ambiguous by design)
+    alts = G.int_labels(rng, m, base=rng.choice([10 ** 4, 10 ** 6, 2 * 10 ** 9])) if lab_kind == "int" else [f"A{i:05d}" for i in rng.sample(range(3 * m), m)]
+    crits = G.int_labels(rng, n) if rng.random() < INT_LABEL_RATE else G.labels(rng, G.LABEL_POOL_CRIT, n)
+    return {"matrix": [[None if mask[i][j] else cols[j][i] for j in range(n)] for i in range(m)], "int_matrix": False,
+            "objectives": G.objectives(rng, n), "weights": G.weights(rng, n, "float"), "alternatives": alts, "criteria": crits,
+            "family": "float", "style": "long-" + style, "long": list(kinds)}
+
+
+def _long_case(rng, cls):
+    """a VERY LONG matrix (2049..5000 alternatives x 2-4 criteria) of values that single precision cannot hold, through one
+    imputer; a third of them on a re-used object (warm-up: a short matrix or another very long one, same number of criteria)"""
+    dm = _long_dm(rng)
+    n = len(dm["criteria"])
+    if cls == "Simple":
+        kw = _simple_kw(rng)
+    elif cls == "KNN":
+        kw = _knn_kw(rng)
+        kw.pop("metric", None)  # (a python callable metric is called once per pair of alternatives: minutes on this size)
+    else:
+        kw = _iter_kw(rng, n)
+        kw["max_iter"] = rng.choice([0, 1, 1, 2])
+        if kw.get("estimator") == "KNeighborsRegressor" and kw["max_iter"] > 1:
+            kw["max_iter"] = 1
+    case = {"kind": "impute", "cls": cls, "kw": kw, "dm": dm, "sentinel": SENTINEL if rng.random() < 0.2 else None}
+    if rng.random() < 0.34:
+        if rng.random() < 0.5:
+            case["warm"] = {"mode": "same-n", "dm": _dm(rng, m=rng.randint(3, 12), n=n)}
+        else:
+            case["warm"] = {"mode": "same-n", "dm": _long_dm(rng, n=n)}
+    return case
+
+
 def _empty_column_case(rng):
     """out of the property's domain: a criterion without any observed value (SimpleImputer, model correspondence)"""
     case = _impute_case(rng, cls="Simple", style=rng.choice(["random", "heavy", "none"]), warm=False)
@@ -297,6 +376,9 @@ def gen(ctx):
         for cls in ("Simple", "KNN", "Iterative"):
             for _ in range(ctx.n(6, 200)):
                 cases.append(_impute_case(rng, cls=cls, int_labels=which))
+    for cls in ("KNN", "Simple", "Iterative"):  # a fixed share: very long matrices, values single precision cannot hold
+        for _ in range(ctx.n(3, 8)):
+            cases.append(_long_case(rng, cls))
     for _ in range(ctx.n(80, 2500)):
         cases.append(_knn_k_case(rng))
     for _ in range(ctx.n(30, 800)):
@@ -308,7 +390,8 @@ def gen(ctx):
 
 def search_gen(ctx):
     rng = ctx.rng
-    return [_impute_case(rng) for _ in range(2500)] + [_knn_k_case(rng) for _ in range(300)]
+    return ([_impute_case(rng) for _ in range(2500)] + [_knn_k_case(rng) for _ in range(300)]
+            + [_long_case(rng, cls) for cls in ("KNN", "Simple", "Iterative") for _ in range(4)])
 
 
 # --------------------------------------------------------------------------- implementation side
